@@ -1,6 +1,7 @@
 package main
 
 import (
+	"hash/fnv"
 	"runtime"
 	"sort"
 	"bytes"
@@ -292,7 +293,10 @@ func safeFile(s string) string {
 	r := strings.NewReplacer("/", "_", "*", "P", "(", "", ")", "", " ", "_", ":", "_", "$", "S", "\"", "", "'", "", "[", "_", "]", "_", "…", "", "<", "lt", ">", "gt", "|", "_", "&", "_", ";", "_", "=", "eq", ",", "_", "!", "n", "{", "_", "}", "_")
 	out := r.Replace(s)
 	if len(out) > 120 {
-		out = out[:120]
+		// keep truncated names distinct (two obligations that differ only in a late suffix must not share a file)
+		h := fnv.New32a()
+		h.Write([]byte(s))
+		out = fmt.Sprintf("%s_%08x", out[:110], h.Sum32())
 	}
 	return out
 }
